@@ -194,6 +194,44 @@ thread_local! {
     pub static LAST_PANIC: std::cell::RefCell<String> = std::cell::RefCell::new(String::new());
 }
 
+/// stable name of a panic site: `file.rs:enclosing_fn:kind` (line numbers move with every edit)
+pub fn panic_site(what: &str) -> String {
+    // what = "/repo/teos/src/x.rs:LINE: message"
+    let mut it = what.splitn(3, ':');
+    let file = it.next().unwrap_or("?").to_string();
+    let line: usize = it.next().and_then(|l| l.trim().parse().ok()).unwrap_or(0);
+    let msg = it.next().unwrap_or("").trim().to_string();
+    let short = file.rsplit('/').next().unwrap_or(&file).to_string();
+    let mut func = "?".to_string();
+    if let Ok(src) = std::fs::read_to_string(&file) {
+        let lines: Vec<&str> = src.lines().collect();
+        let mut i = line.min(lines.len());
+        while i > 0 {
+            i -= 1;
+            let l = lines[i].trim_start();
+            if let Some(p) = l.find("fn ") {
+                if l.starts_with("fn ") || l.starts_with("pub") || l.starts_with("async fn") {
+                    let rest = &l[p + 3..];
+                    func = rest.chars().take_while(|c| c.is_alphanumeric() || *c == '_').collect();
+                    break;
+                }
+            }
+        }
+    }
+    let kind = if msg.contains("`None`") {
+        "unwrap-none".to_string()
+    } else if msg.contains("PoisonError") {
+        "poisoned".to_string()
+    } else if let Some(p) = msg.find("`Err` value: ") {
+        msg[p + 13..].chars().take_while(|c| c.is_alphanumeric() || *c == '_').collect()
+    } else if msg.contains("overflow") {
+        "overflow".to_string()
+    } else {
+        msg.chars().filter(|c| c.is_alphanumeric()).take(24).collect()
+    };
+    format!("{short}:{func}:{kind}")
+}
+
 pub fn install_panic_hook() {
     std::panic::set_hook(Box::new(|info| {
         let loc = info.location().map(|l| format!("{}:{}", l.file(), l.line())).unwrap_or_default();
@@ -205,6 +243,9 @@ pub fn install_panic_hook() {
             "?".into()
         };
         let short: String = msg.chars().take(160).collect();
+        if std::env::var("VERIF_DEBUG").is_ok() {
+            eprintln!("panic at {loc}: {short}");
+        }
         LAST_PANIC.with(|p| *p.borrow_mut() = format!("{loc}: {short}"));
     }));
 }
